@@ -40,16 +40,16 @@ def encLine (chunks : List Bytes) : Bytes × String :=
 
 def decSt (c : DecCtx) : String := s!"st={c.word}/{c.bits}/{c.padding}"
 
-def decRun (ctx : DecCtx) (k : Nat) (acc : Bytes) : List Bytes → String × Option Bytes
+def decRun (lim : Nat) (ctx : DecCtx) (k : Nat) (acc : Bytes) : List Bytes → String × Option Bytes
   | [] => if decodeFinal ctx then (s!"ok {Bytes.toHex acc} {decSt ctx}", some acc)
           else (s!"reject:final {Bytes.toHex acc} {decSt ctx}", none)
   | s :: rest =>
-    match decodeUpdate ctx s with
-    | (ctx', out, .ok) => decRun ctx' (k + 1) (acc ++ out) rest
+    match decodeUpdate lim ctx s with
+    | (ctx', out, .ok) => decRun lim ctx' (k + 1) (acc ++ out) rest
     | (ctx', _, .bad) => (s!"reject:update@{k} {Bytes.toHex acc} {decSt ctx'}", none)
     | (ctx', _, .assertFail) => (s!"abort:assert {Bytes.toHex acc} {decSt ctx'}", none)
 
-def decLine (chunks : List Bytes) : String := (decRun decodeInit 0 [] chunks).1
+def decLine (lim : Nat) (chunks : List Bytes) : String := (decRun lim decodeInit 0 [] chunks).1
 
 /-- all ordered sums of positive parts, in the order of the harness (bit i of the mask set = cut after position i) -/
 def compositions (n : Nat) : List (List Nat) :=
@@ -61,15 +61,15 @@ def compositions (n : Nat) : List (List Nat) :=
 
 def fnvStep (d : UInt64) (c : UInt8) : UInt64 := (d ^^^ c.toUInt64) * 1099511628211
 
-def bulkOne (x : Bytes) (st : Nat × UInt64) : Nat × UInt64 :=
+def bulkOne (lim : Nat) (x : Bytes) (st : Nat × UInt64) : Nat × UInt64 :=
   let enc0 := encodeChunks [x]
   let okEnc := (compositions x.length).all fun parts => encodeChunks (cut x parts) = enc0
-  let okDec := decodeChunks [enc0] = some x ∧ decodeChunks (enc0.map fun c => [c]) = some x
+  let okDec := decodeChunks lim [enc0] = some x ∧ decodeChunks lim (enc0.map fun c => [c]) = some x
   let okRaw := encodeRaw x = enc0
   let d := enc0.foldl fnvStep st.2
   (if okEnc ∧ okDec ∧ okRaw then st.1 else st.1 + 1, fnvStep d 0xff)
 
-def bulk (n lo hi : Nat) : String :=
+def bulk (lim n lo hi : Nat) : String :=
   if n > 3 ∨ lo > hi ∨ hi > 255 then "bad-op" else
   let total := if n = 0 then 1 else (hi - lo + 1) * 256 ^ (n - 1)
   let r := (List.range total).foldl (fun st idx =>
@@ -78,7 +78,7 @@ def bulk (n lo hi : Nat) : String :=
       | 1 => [UInt8.ofNat (lo + idx)]
       | 2 => [UInt8.ofNat (lo + idx / 256), UInt8.ofNat (idx % 256)]
       | _ => [UInt8.ofNat (lo + idx / 65536), UInt8.ofNat (idx / 256 % 256), UInt8.ofNat (idx % 256)]
-    bulkOne x st) (0, (14695981039346656037 : UInt64))
+    bulkOne lim x st) (0, (14695981039346656037 : UInt64))
   let hex := String.ofList ((List.range 16).map fun i => Bytes.hexDigit ((r.2.toNat >>> (60 - 4 * i)) % 16))
   s!"count={total} bad={r.1} digest={hex}"
 
@@ -86,26 +86,27 @@ def optHex : Option Bytes → String
   | none => "null"
   | some b => Bytes.toHex b
 
-def basicLine (cs : Bool) (hdr : Bytes) : String :=
+def basicLine (lim : Nat) (cs : Bool) (hdr : Bytes) : String :=
   if hdr.contains 0 then "reject:nul" else
-  match Basic.decode cs hdr with
+  match Basic.decode lim cs hdr with
   | none => "none"
   | some c =>
     let d := match c.deny with | .none => "-" | .noPassword => "nopass" | .emptyPassword => "empty"
     s!"user={Bytes.toHex c.user} pass={optHex c.pass} deny={d} type={if c.valid then "basic" else "broken"}"
 
-def basicOp (f h : String) : String :=
+def basicOp (lim : Nat) (f h : String) : String :=
   if f ≠ "c" ∧ f ≠ "i" then "bad-op" else
   match Bytes.ofHex h with
-  | some s => basicLine (f == "c") s
+  | some s => basicLine lim (f == "c") s
   | none => "bad-op"
 
 def handle (line : String) : String :=
   match Driver.words line with
-  | ["b", f, h] => basicOp f h
-  | ["B", f, h] => basicOp f h
+  | ["b", f, h] => basicOp Gen.Base64.nettlePadLimit f h   -- Config.cc + libnettle (the binary)
+  | ["B", f, h] => basicOp Gen.Base64.localPadLimit f h    -- Config.cc + lib/base64.cc
   | op :: impl :: args =>
     if impl ≠ "L" ∧ impl ≠ "N" then "bad-op" else
+    let lim := if impl = "L" then Gen.Base64.localPadLimit else Gen.Base64.nettlePadLimit
     match op, args with
     | "e", [h, spec] =>
       match Bytes.ofHex h with
@@ -131,14 +132,14 @@ def handle (line : String) : String :=
     | "d", [h, spec] =>
       match Bytes.ofHex h with
       | some x => match splitChunks spec x with
-        | some chunks => decLine chunks
+        | some chunks => decLine lim chunks
         | none => "bad-op"
       | none => "bad-op"
     | "s", [w, b, p, h] =>
       match parseNat w, parseNat b, parseNat p, Bytes.ofHex h with
       | some w, some b, some p, some [x] =>
         if w > 65535 ∨ b > 14 ∨ p > 255 then "bad-op" else
-        let r := decodeSingle ⟨w, b, p⟩ x
+        let r := decodeSingle lim ⟨w, b, p⟩ x
         match r.2 with
         | .err => s!"-1 - {decSt r.1}"
         | .none => s!"0 - {decSt r.1}"
@@ -151,13 +152,13 @@ def handle (line : String) : String :=
         | some chunks =>
           let enc := (encLine chunks).1
           match splitChunks spec2 enc with
-          | some dchunks => decLine dchunks
+          | some dchunks => decLine lim dchunks
           | none => "bad-op"
         | none => "bad-op"
       | none => "bad-op"
     | "x", [n, lo, hi] =>
       match parseNat n, parseNat lo, parseNat hi with
-      | some n, some lo, some hi => bulk n lo hi
+      | some n, some lo, some hi => bulk lim n lo hi
       | _, _, _ => "bad-op"
     | _, _ => "bad-op"
   | _ => "bad-op"
